@@ -12,6 +12,7 @@ Theorem C03_code_facts :
   free_blocker_waits_for_accept_loop = true /\ conn_key_is_dest = true /\
   registers_before_links = true /\ stop_waits_then_closes = true.
 Proof. repeat split; reflexivity. Qed.
+Print Assumptions C03_code_facts.
 
 (** once stop() has returned: the listener is closed, the accept loop has ended, and every socket
     of every connection ever accepted - client side and upstream side - is closed *)
@@ -19,12 +20,14 @@ Theorem C03_stop_is_down : forall l s,
   prun px_init l = Some s -> x_stop s = SReturned ->
   x_listening s = false /\ x_acc s = ADone /\ x_open s = [].
 Proof. exact (stop_is_down (proj1 C03_code_facts) (proj1 (proj2 C03_code_facts))). Qed.
+Print Assumptions C03_stop_is_down.
 
 (** and it stays that way whatever happens next: no registration, no new socket *)
 Theorem C03_nothing_after_stop : forall l s a s',
   prun px_init l = Some s -> x_stop s = SReturned -> pstep s a = Some s' ->
   x_open s' = [] /\ x_acc s' = ADone /\ x_listening s' = false.
 Proof. exact (nothing_after_stop (proj1 C03_code_facts) (proj1 (proj2 C03_code_facts))). Qed.
+Print Assumptions C03_nothing_after_stop.
 
 (** at the API level: disable, delete and a re-addressing update end with the old incarnation
     stopped (enabled = false in the intermediate state) before the response *)
@@ -39,8 +42,10 @@ Proof.
   rewrite <- Hres. rewrite !String.eqb_refl. simpl.
   destruct (p_enabled p) eqn:Hen; simpl; eexists; split; try reflexivity; simpl; auto.
 Qed.
+Print Assumptions C03_disable_stops.
 
 Theorem C03_delete_removes : forall s name p,
   find_proxy s name = Some p ->
   h_proxy_delete s name = (mkResp status_no_content PNone, remove_proxy s name).
 Proof. intros s name p H. unfold h_proxy_delete. now rewrite H. Qed.
+Print Assumptions C03_delete_removes.
